@@ -12,11 +12,11 @@ EXPLANATION = (
     "SecureRandomNumberGenerator to its _using sibling (census of RNG values reaching Salt::new_*_using). C17.4: the length/range forms "
     "pass the caller's value unchanged to Salt::new_with_len_using / new_in_range_using and propagate the refusal with `?`. C17.5: in the "
     "salted add, the inserted envelope is add_salt(assertion) iff salted, else the assertion; the duplicate test and the validity test of "
-    "C04.3/C04.4 apply to the very element inserted (so a salted add is not suppressed by an equal unsalted assertion). Does not decide the "
+    "C04.3/C04.4 apply to the very element inserted (so a salted add is not suppressed by an equal unsalted assertion). C17.6: a salted assertion is still found by its predicate - the C15.5 lookup rules (filter on subject(a)) re-evaluated here. Does not decide the "
     "documented length range / >= 8 refusal (inside bc_components::Salt) nor distinctness across invocations (randomness).")
 TRUSTED = ['Salt::new_for_size_using / new_with_len_using / new_in_range_using implement the documented length rules',
            'SecureRandomNumberGenerator is the OS CSPRNG']
-FLOORS = {'C17.1': 1, 'C17.2': 1, 'C17.3': 3, 'C17.4': 6, 'C17.5': 2}
+FLOORS = {'C17.1': 1, 'C17.2': 1, 'C17.3': 3, 'C17.4': 6, 'C17.5': 2, 'C17.6': 4}
 P1, P2, P3 = ('param', 1), ('param', 2), ('param', 3)
 
 
@@ -179,3 +179,19 @@ class ctx_proxy:
         self.ctx.ok(self.inst + '/dup', site, detail, **kw)
     def fail(self, inst, site, detail, key=None, **kw):
         self.ctx.fail(self.inst + '/dup', site, detail, key=(self.inst + '|' + (key or detail)), **kw)
+
+
+_check_core = check
+
+
+def check(ctx):
+    _check_core(ctx)
+    # C17.6: "adding an assertion as salted adds that assertion, still found by its predicate": a salted assertion is a node whose
+    # subject is the assertion, so the predicate lookups must look at subject(a) of each assertion element - the C15.5 instances
+    # (lookup filter and the single-result table) re-evaluated under this property.
+    from . import C15
+    from .C07 import Relabel
+    try:
+        C15.check(Relabel(ctx, 'C17.6', ['C15.5']))
+    except Exception as e:
+        ctx.fail('C17.6', '-', 'predicate lookup rules (C15.5) could not be evaluated: %r' % e, key='C17.6|c15')
